@@ -25,6 +25,10 @@ type TownOpts struct {
 	Paged     bool // outboxes / reply collections spread over pages
 	Markdown  bool // some bodies are Markdown
 	Spine     bool // one long reply chain whose members have several replies each (deep and wide threads)
+	// DeadParents: some top-level posts claim to answer something that cannot be shown as a post
+	// any more (deleted, of a kind servitor does not show, malformed, gone). Only for sessions whose
+	// oracles do not model the thread above a post.
+	DeadParents bool
 }
 
 type TLink struct {
@@ -54,6 +58,7 @@ type TPost struct {
 	Attachments         []TLink
 	Media               []TLink
 	MediaHasString      bool // some url entry is a bare string (shorthand)
+	AttachBroken        bool // the attachment list ends in a member that is no link at all: the post then has no attachments to show or select
 	Published           time.Time
 	Doc                 Doc
 }
@@ -220,6 +225,13 @@ func buildTown(r *Run, opts TownOpts) *Town {
 				p.BodyLinks = append(p.BodyLinks, tn.Posts[t.Draw(len(tn.Posts))].ID)
 			} else if t.Chance(1, 3) {
 				p.BodyLinks = append(p.BodyLinks, tn.Actors[t.Draw(len(tn.Actors))].ID)
+			} else if t.Chance(1, 4) {
+				// a link to a list: somebody's outbox, the replies to an earlier post
+				if len(tn.Posts) > 0 && t.Chance(1, 2) {
+					p.BodyLinks = append(p.BodyLinks, tn.Posts[t.Draw(len(tn.Posts))].RepliesURL)
+				} else {
+					p.BodyLinks = append(p.BodyLinks, tn.Actors[t.Draw(len(tn.Actors))].OutboxURL)
+				}
 			} else {
 				p.BodyLinks = append(p.BodyLinks, tn.link("Link").Href)
 			}
@@ -336,11 +348,34 @@ func (tn *Town) install() {
 		}
 		if p.Parent != nil {
 			d["inReplyTo"] = p.Parent.ID
+		} else if tn.Opts.DeadParents && t.Chance(1, 3) {
+			dead := fmt.Sprintf("https://%s/dead/%d", p.Host, f.next())
+			switch t.Draw(6) {
+			case 0:
+				f.Serve(dead, Doc{"id": dead, "type": "Tombstone", "formerType": "Note", "deleted": "2020-01-01T00:00:00Z"})
+			case 1:
+				f.Serve(dead, Doc{"id": dead, "type": "Question", "name": "a poll", "oneOf": []any{Doc{"type": "Note", "name": "yes"}}})
+			case 2:
+				f.Serve(dead, Doc{"id": dead, "name": "no type at all"})
+			case 3:
+				f.Serve(dead, Doc{"id": dead, "type": "Note", "content": 5, "attributedTo": 7})
+			case 4:
+				f.ServeRaw(dead, NotFound())
+			case 5:
+				f.Serve(dead, Doc{"id": "https://elsewhere.example/x", "type": "Note", "content": "forged"})
+			}
+			d["inReplyTo"] = dead
+			f.r.S.Probe("town_dead_parent")
 		}
 		if len(p.Attachments) > 0 {
 			var at []any
 			for _, l := range p.Attachments {
 				at = append(at, l.doc())
+			}
+			if t.Chance(1, 6) {
+				p.AttachBroken = true
+				at = append(at, []any{5, "just words", Doc{"type": "Note", "content": "not a link"}, Doc{"name": "no type"}, nil, Doc{"type": 7}}[t.Draw(6)])
+				f.r.S.Probe("town_attachment_list_with_malformed_member")
 			}
 			d["attachment"] = at
 		}
